@@ -55,7 +55,9 @@ theorem two_run_layout (H : Hooks) (items : List Item) (hyp : GrowHyps H items) 
     (hb6 : maybeCompress H true (resolveRegisterAliases b4 constants) constants lb4 = .ok (b6, lb6))
     (hb7 : resolveAligns b6 lb6 = .ok (b7, lb7)) :
     sizeSum b7 ≤ sizeSum a7 ∧
-    ∀ ℓ v0 v1, la7.get ℓ = some v0 → lb7.get ℓ = some v1 → v1 ≤ v0 := by
+    (∀ ℓ v0 v1, la7.get ℓ = some v0 → lb7.get ℓ = some v1 → v1 ≤ v0) ∧
+    (∀ ℓ, ℓ ∈ labelNames items → ∃ v0 v1, la7.get ℓ = some v0 ∧ lb7.get ℓ = some v1 ∧ v1 ≤ v0) ∧
+    (∀ ℓ, ℓ ∉ labelNames items → la7.get ℓ = none ∧ lb7.get ℓ = none) := by
   simp only [maybeCompress, if_true, transformCompressible] at hb3 hb6
   unfold transformPseudo at ha4 hb4
   unfold resolveAligns at ha7 hb7
@@ -111,29 +113,39 @@ theorem two_run_layout (H : Hooks) (items : List Item) (hyp : GrowHyps H items) 
     have m3 := mem_aliases_other (by intro l i e; cases e) m2
     exact hyp.aligns l a (c3 _ m3)
   obtain ⟨htot, hlab⟩ := align_lockstep hdom6 0 0 la4 lb6 A7 B7 la7 lb7 (Int.le_refl _) hal wa7 wb7
-  refine ⟨?_, ?_⟩
+  have hkeys : ∀ ℓ, ℓ ∈ labelNames items → ∃ v0 v1, la7.get ℓ = some v0 ∧ lb7.get ℓ = some v1 ∧ v1 ≤ v0 := by
+    intro ℓ hℓ
+    have hsome := (labelPos_isSome_iff A7 0 ℓ).mpr (by rw [sa7.names_eq]; exact hℓ)
+    cases hu : labelPos A7 0 ℓ with
+    | none => simp [hu] at hsome
+    | some u0 =>
+      obtain ⟨u1, e1, e2⟩ := hlab ℓ u0 hu
+      exact ⟨u0, u1, sa7.agree ℓ u0 hu, sb7.agree ℓ u1 e1, e2⟩
+  have hnokeys : ∀ ℓ, ℓ ∉ labelNames items → la7.get ℓ = none ∧ lb7.get ℓ = none := by
+    -- not a label of the program: not a key of either table
+    intro ℓ hℓ
+    exact ⟨by rw [ka7 ℓ hℓ, ka4 ℓ hℓ, hnone2 ℓ hℓ], by rw [kb7 ℓ hℓ, kb6 ℓ hℓ, kb4 ℓ hℓ, kb3 ℓ hℓ, hnone2 ℓ hℓ]⟩
+  refine ⟨?_, ?_, hkeys, hnokeys⟩
   · rw [← sa7.strip_eq, ← sb7.strip_eq, sizeSum_strip, sizeSum_strip]; omega
   · intro ℓ v0 v1 hv0 hv1
     by_cases hℓ : ℓ ∈ labelNames items
-    · have hsome := (labelPos_isSome_iff A7 0 ℓ).mpr (by rw [sa7.names_eq]; exact hℓ)
-      cases hu : labelPos A7 0 ℓ with
-      | none => simp [hu] at hsome
-      | some u0 =>
-        obtain ⟨u1, e1, e2⟩ := hlab ℓ u0 hu
-        rw [sa7.agree ℓ u0 hu] at hv0
-        rw [sb7.agree ℓ u1 e1] at hv1
-        simp only [Option.some.injEq] at hv0 hv1
-        omega
-    · -- not a label of the program: not a key of either table
-      rw [ka7 ℓ hℓ, ka4 ℓ hℓ, hnone2 ℓ hℓ] at hv0
+    · obtain ⟨u0, u1, e0, e1, e2⟩ := hkeys ℓ hℓ
+      rw [e0] at hv0
+      rw [e1] at hv1
+      simp only [Option.some.injEq] at hv0 hv1
+      omega
+    · rw [(hnokeys ℓ hℓ).1] at hv0
       cases hv0
 
 /-- **C20, second sentence: nothing grows.**  If the program assembles both without and with `-c`
-    (and satisfies `GrowHyps`), the `-c` output is not longer and no label has a larger value. -/
+    (and satisfies `GrowHyps`), the `-c` output is not longer and no label has a larger value; the two label
+    tables have the SAME keys — exactly the label names of the program, each with a value in both runs. -/
 theorem nothing_grows (H : Hooks) (items : List Item) (r₀ r₁ : AsmResult) (hyp : GrowHyps H items)
     (h0 : assembleItems H false items [] [] = .ok r₀) (h1 : assembleItems H true items [] [] = .ok r₁) :
     r₁.bytes.length ≤ r₀.bytes.length ∧
-      ∀ ℓ v₀ v₁, r₀.labels.get ℓ = some v₀ → r₁.labels.get ℓ = some v₁ → v₁ ≤ v₀ := by
+      (∀ ℓ v₀ v₁, r₀.labels.get ℓ = some v₀ → r₁.labels.get ℓ = some v₁ → v₁ ≤ v₀) ∧
+      (∀ ℓ, ℓ ∈ labelNames items → ∃ v₀ v₁, r₀.labels.get ℓ = some v₀ ∧ r₁.labels.get ℓ = some v₁ ∧ v₁ ≤ v₀) ∧
+      (∀ ℓ, ℓ ∉ labelNames items → r₀.labels.get ℓ = none ∧ r₁.labels.get ℓ = none) := by
   obtain ⟨i1a, i2a, a3, a4, a6, a7, outa, l2a, l3a, l4a, l6a, _, e1a, e2a, e3a, e4a, e6a, e7a, landa, bytesa⟩ :=
     assemble_stages_all H false items r₀ h0
   obtain ⟨i1b, i2b, b3, b4, b6, b7, outb, l2b, l3b, l4b, l6b, _, e1b, e2b, e3b, e4b, e6b, e7b, landb, bytesb⟩ :=
@@ -150,8 +162,8 @@ theorem nothing_grows (H : Hooks) (items : List Item) (r₀ r₁ : AsmResult) (h
   simp only [maybeCompress, Bool.false_eq_true, if_false, pure, Except.pure, Except.ok.injEq, Prod.mk.injEq] at e3a e6a
   obtain ⟨rfl, rfl⟩ := e3a
   obtain ⟨rfl, rfl⟩ := e6a
-  obtain ⟨htot, hlab⟩ := two_run_layout H items hyp r₀.constants e1a e2a e4a e7a e3b e4b e6b e7b
-  refine ⟨?_, hlab⟩
+  obtain ⟨htot, hlab, hkeys, hnokeys⟩ := two_run_layout H items hyp r₀.constants e1a e2a e4a e7a e3b e4b e6b e7b
+  refine ⟨?_, hlab, hkeys, hnokeys⟩
   have ta := land_total landa
   have tb := land_total landb
   rw [bytesa, bytesb]
